@@ -92,8 +92,10 @@ def get_interpolation(big_edge, layers, **kwargs):
     rescale = kwargs.get("rescale", [1, 1])
     length = 0
     all_vertices = set()
-    xs_values = [(value * rescale[0]) + offset[0] for value in big_edge.xs]
-    ys_values = [(value * rescale[1]) + offset[1] for value in big_edge.ys]
+    # the current positions of the vertices (big_edge.xs / ys are a copy taken when the big edge was built and do not
+    # follow a mesh that was smoothed or moved afterwards; the non-integrated intensity reads the vertices as well)
+    xs_values = [(vertex.x * rescale[0]) + offset[0] for vertex in big_edge.vertices]
+    ys_values = [(vertex.y * rescale[1]) + offset[1] for vertex in big_edge.vertices]
     # xy_pairs = list(zip(big_edge.xs, big_edge.ys))
     xy_pairs = list(zip(xs_values, ys_values))
 
